@@ -113,6 +113,7 @@ func genC01(r *Rng, tier string) *Plan {
 		} else if r.Chance(1, 3) {
 			fp.Point = "compressed" // as `openssl ec -conv_form compressed` leaves it (used for NIST curves only)
 		}
+		fp.V2 = r.Chance(1, 6) // the issuer's key in RFC 5958 form (version 1, public key attached)
 		if r.Chance(1, 3) {
 			// the imported certificate has a key identifier of its own that is not SHA-1 of its key
 			// (RFC 7093 methods, a CA's own numbering): a child's identifier requested as `hash` is
